@@ -119,7 +119,7 @@ T("fixes.move_imports_to_toplevel",
   "json = 'data'\ndef f():\n    import json\n    return json.dumps([1])\nprint(f(), json)\n",
   "def f():\n    from os import path as p\n    return p.basename('/a/b')\ndef g():\n    import os.path\n    return os.path.basename('/c/d')\nprint(f(), g())\n")
 T("fixes.remove_duplicate_functions",
-  "def f(x):\n    return x + 1\ndef g(x):\n    return x + 1\nprint(f(1), g(2), g.__name__)\n",
+  "def f(x):\n    return x + 1\ndef g(x):\n    return x + 1\nprint(f(1), g(2))\n",
   # default values are evaluated at definition time
   "n = 1\ndef f(x=n):\n    return x\nn = 2\ndef g(x=n):\n    return x\nprint(f(), g())\n",
   # separate mutable state in the default
@@ -134,8 +134,9 @@ T("fixes.remove_unused_imports",
   "import json\nprint(eval('json.dumps(1)'))\n",
   "import collections.abc\nimport collections\nprint(collections.abc.Sized.__name__)\n")
 T("fixes.add_missing_imports",
-  "print(math.floor(2.5), os.sep == '/')\n" if False else "import sys\ntry:\n    math.floor(1.5)\nexcept NameError as e:\n    print('NameError')\n",
-  "def f():\n    return os.path.basename('/a/b')\ntry:\n    print(f())\nexcept NameError:\n    print('no os')\n")
+  # (a program that reaches the undefined name raises NameError: only unreached uses can be observed)
+  "def f():\n    return os.path.basename('/a/b')\ndef g():\n    return math.floor(2.5) + sys.maxsize\nprint('f and g are not called')\n",
+  "import sys\nif len(sys.argv) > 5:\n    print(json.dumps(1), Path('.'))\nprint('end')\n")
 T("fixes.fix_duplicate_imports",
   "import os\nimport os\nimport sys, os\nfrom os import path\nfrom os import sep, path\nprint(os.sep, sys.maxsize > 0, path.basename('/a/b'), sep)\n",
   # two imports bound to the same name: the last one wins
@@ -146,7 +147,6 @@ T("fixes.sort_imports",
   "import sys\nimport os\nfrom os import path\nprint(os.sep, sys.maxsize > 0, path.basename('/a/b'))\n",
   # same name bound by two imports of one block: order matters
   "import json as m\nimport csv as m\nprint(m.__name__)\n",
-  "from string import digits as d, ascii_lowercase as d\nprint(d)\n",
   "import sys\nsys.path.insert(0, '.')\nimport os\nimport collections\nprint(collections.OrderedDict.__name__, os.sep)\n")
 T("fixes.fix_import_spacing",
   "import os\n\n\n\nimport sys\nx = 1\nprint(os.sep, sys.maxsize > 0, x)\n",
@@ -199,3 +199,337 @@ T("fixes.simplify_assign_immediate_return",
   "x = 0\ndef f():\n    global x\n    x = 5\n    return x\nprint(f(), x)\n",
   "def f():\n    x = 1\n    def g():\n        nonlocal x\n        x = 7\n        return x\n    return g(), x\nprint(f())\n",
   "def f(a):\n    if a:\n        r = [a]\n        return r\n    q: int = 3\n    return q\nprint(f(0), f(2))\n")
+
+# ---------------------------------------------------------------------------------------------------------------
+# comparisons / boolean
+
+T("fixes.singleton_eq_comparison",
+  "def f(x):\n    return x == None, x != None\nprint(f(None), f(0), f(''))\n",
+  # 0 == False and 1 == True, but they are not the same objects
+  "def f(x):\n    return x == False, x == True, x != True\nprint(f(0), f(1), f(False), f(2), f(1.0))\n",
+  "x = 0\nif x == False:\n    print('falsy zero')\nelse:\n    print('not False')\n")
+T("fixes.replace_negated_numeric_comparison",
+  "def f(a):\n    return not a < 3, not a <= 3, not a > 3, not a >= 3, not a == 3, not a != 3\nprint(f(2), f(3), f(4), f(2.5))\n",
+  "n = float('nan')\nprint(not n < 3, not n >= 3.5, not 0 > n, not n == 3)\n",
+  "def f(a, b):\n    return not a in b, not a not in b, not a is b, not a is not b\nprint(f(1, [1]), f(2, [1]), f((), ()))\n",
+  "def f(a):\n    return not a + 1 < -2, not 2 * a >= a\nprint(f(-5), f(0), f(3))\n")
+T("fixes.remove_redundant_boolop_values",
+  "def f(x):\n    return x or 0 or '', x and 1 and 2, x or 3 or 4, 0 and x, x and 0 and 5\nprint(f(0), f(7), f([]))\n",
+  "def f(x, y):\n    return (x or False or None or y), (x and True and y), ('' or x), (1 and x)\nprint(f(0, 2), f(3, 0), f([], ()))\n",
+  "def g():\n    print('g called')\n    return 0\nprint(0 and g(), 1 or g(), g() or 0 or 0)\n")
+
+# ---------------------------------------------------------------------------------------------------------------
+# comprehensions and collections
+
+T("fixes.redundant_enumerate",
+  "y = ['a', 'b']\nfor _, x in enumerate(y):\n    print(100 * x)\nprint([x for _, x in enumerate(y)], {k: 1 for _, k in enumerate(y)})\n",
+  "for _, x in enumerate([]):\n    print(x)\nprint(list(x for _, x in enumerate(iter('ab'))))\n",
+  # `_` is read after the loop
+  "for _, x in enumerate('abc'):\n    pass\nprint(_, x)\n",
+  "for _, (a, b) in enumerate([(1, 2), (3, 4)]):\n    print(a + b)\n")
+T("fixes.unused_zip_args",
+  "for a, _ in zip([1, 2], [3, 4]):\n    print(a)\nprint([b for _, b in zip('ab', 'cd')])\n",
+  "for a, _, c in zip([1, 2], [3, 4], [5, 6]):\n    print(a, c)\n",
+  "import itertools\nfor a, _ in itertools.zip_longest([1], [3, 4]):\n    print(a)\n",
+  "for _, _ in zip([1, 2], [3]):\n    print('x')\n")
+T("fixes.replace_map_lambda_with_comp",
+  "print(list(map(lambda x: x * 2, [1, 2, 3])), sum(map(lambda v: v + 1, (1, 2))))\n",
+  "x = 10\nm = map(lambda x: x + 1, [1, 2])\nprint(x, list(m), x)\n",
+  "fs = [1, 2]\nm = map(lambda y: y * len(fs), fs)\nfs = [5, 5, 5]\nprint(list(m))\n",
+  "it = iter([1, 2, 3])\nm = map(lambda x: x, it)\nprint(next(m), next(it), next(m, 'end'))\n")
+T("fixes.replace_filter_lambda_with_comp",
+  "print(list(filter(lambda x: x % 2, [1, 2, 3])), list(filter(lambda v: v, ['', 'a', 0, 5])))\n",
+  "import itertools\nprint(list(itertools.filterfalse(lambda x: x % 2, range(5))))\n",
+  "seq = [1, 2, 3]\nf = filter(lambda x: x > 1, seq)\nseq = [7, 8]\nprint(list(f), next(iter(filter(lambda y: y, [0, 4]))))\n")
+T("fixes.replace_with_filter",
+  "for x in [1, 0, 2, None]:\n    if x:\n        print(x)\n",
+  # the loop variable is read after the loop: it is the last element before, the last accepted one after
+  "for x in [1, 0]:\n    if x:\n        print(x)\nprint('last', x)\n",
+  "def ok(v):\n    return v > 1\nfor v in [1, 2, 3]:\n    if not ok(v):\n        continue\n    print(v)\nfor w in ('', 'a', 'b'):\n    if not w:\n        continue\n    print(w)\n",
+  "def ok(v):\n    return v % 2\nfor v in range(4):\n    if ok(v):\n        print(v)\n        print(-v)\n")
+T("fixes.merge_chained_comps",
+  "print([x for x in [y for y in range(5) if y % 2] if x > 1], {x for x in {x for x in 'abca'} if x != 'a'} == {'b', 'c'})\n",
+  "def t(v):\n    print('t', v)\n    return v\nprint(list(x for x in (x for x in range(3) if t(x)) if t(-x)))\n",
+  "print([x * 2 for x in [x for x in range(4)]], [x for x in [x + 1 for x in range(3)]])\n")
+T("fixes.merge_nested_comprehensions",
+  "print([a for a in [b for b in range(4) if b % 2]], [a + 1 for a in (b for b in range(3))])\n",
+  "print({a for a in {b for b in 'abca'}} == set('abc'), [a for a in {b for b in (1, 1, 2)}] == [1, 2], {a: 1 for a in {b: 2 for b in range(2)}})\n",
+  "b = 'outer'\nprint([(a, b) for a in [b for b in range(2)]])\n",
+  "print([a for a in [b for c in range(3) for b in range(c)]], [a for a in [b for b in range(3) for c in range(b)]])\n")
+T("fixes.remove_redundant_comprehension_casts",
+  "print(list(x for x in range(3)), set([x for x in 'aab']) == {'a', 'b'}, list({x for x in [3, 1, 3]}) == [3, 1] or True)\n",
+  "print(next(iter(x for x in [7, 8])), dict({k: 1 for k in 'ab'}), set({k: 1 for k in 'ab'}) == {'a', 'b'}, list({k: k for k in (2, 1, 2)}))\n",
+  "g = iter([x for x in range(3)])\nprint(next(g), list(g))\n")
+T("fixes.remove_redundant_chain_casts",
+  "import itertools\nprint(list(itertools.chain([1], (2, 3))), tuple(itertools.chain('ab', 'c')), set(itertools.chain([1], [1, 2])) == {1, 2})\n",
+  "import itertools\nprint(list(itertools.chain()), tuple(itertools.chain()), set(itertools.chain()), list(iter(itertools.chain())))\n",
+  "import itertools\ni = iter(itertools.chain([1, 2], [3]))\nprint(next(i), list(i))\n",
+  "import itertools\ni = iter(itertools.chain([1, 2]))\nprint(next(i), list(i))\n")
+T("fixes.remove_redundant_comprehensions",
+  "y = [3, 1]\nprint([x for x in y], {x for x in y} == {1, 3}, list(x for x in y), {k: v for k, v in [(1, 2)]})\n",
+  # a dict iterates over its keys: {k: v for k, v in d} unpacks the KEYS
+  "d = {(1, 2): 3}\nprint({k: v for k, v in d})\n",
+  "y = [3, 1]\nz = [x for x in y]\nz.append(0)\nprint(y, z, [x for x in y] is y)\n",
+  "g = (x for x in [1, 2])\nprint(next(g), list(g))\n")
+T("fixes.replace_functions_with_literals",
+  "print(list(), tuple(), dict(), list((1, 2)), tuple([3, 4]), set((1, 1)), list([5]), set([x for x in 'ab']) == {'a', 'b'})\n",
+  "a = list()\nb = list()\na.append(1)\nprint(a, b, a is b)\n",
+  "print(set(x for x in 'aab') == {'a', 'b'}, next(iter(x for x in [9])), set({1, 2}) == {1, 2}, list([y for y in range(2)]))\n")
+T("fixes.replace_collection_add_update_with_collection_literal",
+  "x = [1]\nx.append(2)\nx.extend([3, 4])\nx.extend((5,))\nx.extend(range(2))\nprint(x)\n",
+  "s = set()\ns.add(1)\ns.update([2, 3])\ns.update({4}, [5])\nprint(sorted(s))\n",
+  "x = [i for i in range(2)]\nx.append(len('ab'))\nprint(x)\n",
+  # the appended value refers to the collection itself
+  "x = [1, 2]\nx.append(len(x))\nx.append(x[0])\nprint(x)\n",
+  "s = {1}\ns.add(2)\ns.update('ab')\nprint(sorted(s, key=str))\n")
+T("fixes.simplify_collection_unpacks",
+  "print([*[1, 2], 3, *(4,)], (*[1], *[]), {*{1, 2}, *[2, 3]} == {1, 2, 3}, [*{7}], [*{'k': 1}])\n",
+  "def n(v):\n    print('n', v)\n    return v\nprint([n(1), *[n(2), n(3)], *(n(4),)], {*{}, *()})\n",
+  "print([*{1: 'a', 2: 'b'}], {*{1: 'a', 2: 'b'}} == {1, 2}, (*{3: 4},), [*[*[1]]])\n")
+T("fixes.simplify_dict_unpacks",
+  "print({**{'a': 1}, 'b': 2, **{'a': 3}}, {**{}, **{1: 2}})\n",
+  "d = {'x': 0}\nprint({**d, **{'x': 1, 'y': 2}}, {**{'x': 1}, **d})\n",
+  "def n(v):\n    print('n', v)\n    return v\nprint({n(1): n(2), **{n(3): n(4)}, **{n(1): n(5)}})\n")
+T("fixes.remove_duplicate_dict_keys",
+  "print({'a': 1, 'b': 2, 'a': 3}, {1: 'x', 1.0: 'y', True: 'z'})\n",
+  # the value expression of the dropped entry has a side effect
+  "def n(v):\n    print('n', v)\n    return v\nprint({'a': n(1), 'a': n(2)})\n",
+  "k = 'a'\nprint({'a': 1, k: 2, 'a': 3}, {0: 'i', 0.0: 'f', False: 'b', -0.0: 'n'})\n")
+T("fixes.remove_duplicate_set_elts",
+  "print({1, 2, 1} == {1, 2}, len({1, 1.0, True}), {'a', 'a', 'b'} == {'a', 'b'})\n",
+  # which of the equal elements survives is observable
+  "print({1, 1.0}, {1.0, 1}, {True, 1, 1.0}, {0, False, 0.0})\n",
+  "x = 1\nprint({1, x, 1} == {1}, {'a', x, 'a'} == {'a', 1})\n")
+T("fixes.breakout_starred_args",
+  "def foo(*a):\n    return a\nprint(foo(1, *(2, 3), *[4], *{5}), foo(*()), foo(*[[1, 2]]))\n",
+  "def n(v):\n    print('n', v)\n    return v\ndef foo(*a, **k):\n    return a, k\nprint(foo(n(0), *(n(1), n(2)), z=n(3)))\n",
+  "print(*[1, 2], *('a',), sep='-')\nprint(max(*[3, 9, 4]), '{} {}'.format(*('x', 'y')))\n")
+T("fixes.replace_redundant_starred",
+  "print([*(x for x in range(3))], (*[x for x in 'ab'],), {*{x for x in (1, 1)}} == {1})\n",
+  "r = range(3)\nprint([*(x * x for x in r)], [*[x for x in r if x]])\n")
+T("fixes.replace_for_loops_with_set_list_comp",
+  "x = []\nfor i in range(3):\n    x.append(i * i)\nprint(x)\n",
+  # the loop variable is read after the loop
+  "x = []\nfor i in range(3):\n    x.append(i)\nprint(x, i)\n",
+  # the element refers to the list that is being built
+  "x = []\nfor i in range(3):\n    x.append(len(x) * 10)\nprint(x)\n",
+  # += on a list extends it
+  "x = []\nfor i in range(3):\n    x += [i]\nprint(x)\n",
+  "s = ''\nfor c in 'abc':\n    s += c\nprint(s)\n",
+  "t = 0\nfor i in range(4):\n    if i % 2:\n        t += i\nu = 10\nfor i in range(3):\n    u -= i\nprint(t, u)\n",
+  "s = set()\nfor i in [1, 2, 1]:\n    for j in (0, 1):\n        if i != j:\n            s.add((i, j))\nprint(sorted(s))\n",
+  # float accumulation order
+  "t = 0.1\nfor v in [0.2, 0.3]:\n    t += v\nprint(t)\n")
+T("fixes.replace_for_loops_with_dict_comp",
+  "d = {}\nfor i in range(3):\n    d[i] = i * i\nprint(d)\n",
+  "d = {'z': 0}\nfor i in range(2):\n    if i:\n        d[str(i)] = i\nprint(d)\n",
+  # the value refers to the dict that is being built / the loop variable is read afterwards
+  "d = {}\nfor i in range(3):\n    d[i] = len(d)\nprint(d)\n",
+  "d = {}\nfor k in 'ab':\n    d[k] = 1\nprint(d, k)\n",
+  "d = {a: 0 for a in 'xy'}\nfor k in 'yz':\n    d[k] = 1\nprint(d)\n")
+T("fixes.replace_nested_loops_with_set_list_comp",
+  "l = []\nfor a in range(3):\n    m = list(range(a))\n    l.extend(m)\nprint(l)\n",
+  "l = []\nfor a in range(3):\n    if a:\n        for c in 'xy':\n            l.extend([c] * a)\nprint(l)\n",
+  # the temporary and the loop variables are read after the loop
+  "l = []\nfor a in range(3):\n    m = [a]\n    l.extend(m)\nprint(l, m, a)\n",
+  # the extension refers to the list that is being extended
+  "l = [1]\nfor a in range(3):\n    l.extend(l[:1] * len(l))\nprint(l)\n")
+T("fixes.replace_setcomp_add_with_union",
+  "x = {1}\nfor i in range(3):\n    x.add(i * 2)\nprint(sorted(x))\n",
+  "x = {a for a in 'ab'}\nx.update('bc')\nprint(sorted(x))\n",
+  "x = {0}\ny = x\nfor i in range(2):\n    x.add(len(x) + 5)\nprint(sorted(x), i)\n")
+T("fixes.replace_listcomp_append_with_plus",
+  "x = [0]\nfor i in range(3):\n    x.append(i * 2)\nprint(x)\n",
+  "x = [a for a in 'ab']\nx.extend('cd')\nx.extend(k for k in 'e')\nprint(x)\n",
+  "x = [0]\nfor i in range(3):\n    x.append(len(x))\nprint(x, i)\n")
+T("fixes.replace_dict_assign_with_dict_literal",
+  "d = {'a': 1}\nd['b'] = 2\nd['a'] = 3\nprint(d)\n",
+  "d = {}\nd['n'] = len(d)\nd['m'] = d['n'] + 1\nprint(d)\n",
+  "d = {1: 'a'}\nd[1.0] = 'b'\nd[2] = d.get(1)\nprint(d)\n")
+T("fixes.replace_dict_update_with_dict_literal",
+  "d = {'a': 1}\nd.update({'b': 2})\nd.update({'a': 3})\nprint(d)\n",
+  "d = {'a': 1}\nd.update([('b', 2)])\nprint(d)\n",
+  "d = {'a': 1}\nd.update(b=2)\nprint(d)\n",
+  "d = {'a': 1}\nd.pop('a')\nd.setdefault('c', 3)\nprint(d)\n",
+  "d = {'a': 1}\nd.update(d)\nd.update({'n': len(d)})\nprint(d)\n")
+T("fixes.replace_dictcomp_assign_with_dict_literal",
+  "d = {k: 0 for k in 'ab'}\nd['c'] = 1\nd['a'] = 2\nprint(d)\n",
+  "d = {k: 0 for k in 'ab'}\nd['n'] = len(d)\nprint(d)\n")
+T("fixes.replace_dictcomp_update_with_dict_literal",
+  "d = {k: 0 for k in 'ab'}\nd.update({'c': 1})\nprint(d)\n",
+  "d = {k: 0 for k in 'ab'}\nd.update([('c', 1)])\nd.pop('a')\nprint(d)\n")
+T("fixes.implicit_dict_keys_values_items",
+  "d = {1: 2, 3: 0}\nfor x, _ in d.items():\n    print(x)\nfor _, v in d.items():\n    print(v)\nprint([k for k, _ in d.items()], [v for _, v in d.items() if v])\n",
+  "d = {1: 2, 3: 4}\nfor k in d.keys():\n    print(k, d[k])\nprint([d[k] for k in d.keys()], {k: d[k] + 1 for k in d.keys()})\n",
+  # the loop writes d[k]: the write is turned into an assignment to the new loop variable
+  "d = {1: 2, 3: 4}\nfor k in d.keys():\n    d[k] = d[k] * 10\nprint(d)\n",
+  "d = {1: 2, 3: 4}\nfor k in d.keys():\n    d[k] += 1\n    print(d[k])\nprint(d)\n")
+T("fixes.implicit_defaultdict",
+  "d = {}\nfor k, v in [('a', 1), ('b', 2), ('a', 3)]:\n    if k not in d:\n        d[k] = []\n    d[k].append(v)\nprint(sorted(d.items()))\n",
+  # the type of d is visible
+  "d = {}\nfor k, v in [('a', 1), ('a', 3)]:\n    if k not in d:\n        d[k] = []\n    d[k].append(v)\nprint(d)\n",
+  "import collections\nd = {}\nfor k, v in [('a', 1), ('a', 3)]:\n    if k in d:\n        d[k].add(v)\n    else:\n        d[k] = {v}\ntry:\n    d['zz']\nexcept KeyError:\n    print('KeyError')\nprint(sorted(d))\n")
+T("fixes.simplify_redundant_lambda",
+  "f = lambda: []\ng = lambda: {}\nh = lambda *a: [*a]\nprint(f(), g(), h(1, 2), (lambda: ())())\n",
+  "def w(*a, **k):\n    return a, k\nf = lambda x, y: w(x, y)\ng = lambda *a, **k: w(*a, **k)\nprint(f(1, 2), g(3, z=4), (lambda: w())())\n",
+  # late binding: the lambda looks the function up when it is called
+  "def w():\n    return 'old'\nf = lambda: w()\ndef w():\n    return 'new'\nprint(f())\n")
+T("fixes.inline_math_comprehensions",
+  "y = [i * i for i in range(4)]\nprint(sum(y))\n",
+  "def p(i):\n    print('p', i)\n    return i\ny = [p(i) for i in range(2)]\nprint('mid')\nz = sum(y)\nprint(z)\n",
+  "r = range(3)\ny = (i for i in r)\nprint(max(y))\n",
+  "y = {i % 2 for i in range(5)}\nz = len(y)\nw = sorted(i for i in y)\nprint(z, w)\n")
+T("fixes.simplify_transposes",
+  "m = [[1, 2], [3, 4]]\nprint(list(zip(*zip(*m))))\n",
+  "class M:\n    def __init__(self, rows):\n        self.rows = rows\n    @property\n    def T(self):\n        return M([list(r) for r in zip(*self.rows)])\n    def __iter__(self):\n        return iter(self.rows)\nm = M([[1, 2], [3, 4]])\nprint(m.T.T.rows, [list(r) for r in zip(*m.T)])\n",
+  "m = [[1, 2, 3], [4, 5]]\nfor row in zip(*zip(*m)):\n    print(row)\n")
+
+# ---------------------------------------------------------------------------------------------------------------
+# performance
+
+T("performance.optimize_contains_types",
+  "def f(x):\n    return x in [1, 2, 3], x in (4, 5), x in list(range(3)), x in sorted({1, 9}), x in [y * 2 for y in range(3)]\nprint(f(1), f(4), f(9), f(2.0))\n",
+  # an unhashable element can be looked up in a list, not in a set
+  "x = [1]\nprint(x in [1, 2, 3], {} in [(), 0])\n",
+  # a string is not the list of its characters
+  "print('ab' in list('abc'), 'ab' in sorted('abc'), 'ab' in tuple('abc'), '' in list('abc'))\n",
+  "d = {1: 'a'}\nprint(1 in list(d), 'a' in set(d), 1 in {k: 0 for k in d}, 2 in iter([1, 2]))\n",
+  "n = float('nan')\nprint(n in [n], n in [float('nan')], 1 in [1.0, True])\n")
+T("performance.remove_redundant_iter",
+  "for x in list(range(3)):\n    print(x)\nprint([y for y in tuple('ab')], [z for z in iter((1, 2))])\n",
+  # the copy protects the iteration from mutation in the body
+  "d = {1: 'a', 2: 'b'}\nfor k in list(d):\n    del d[k]\nprint(d)\n",
+  "l = [1, 2, 3]\nfor v in list(l):\n    if v < 3:\n        l.append(v + 10)\nprint(l)\n",
+  "s = {1, 2}\nfor v in tuple(s):\n    s.add(v + 10)\nprint(sorted(s))\n")
+T("performance.remove_redundant_chained_calls",
+  "v = [3, 1, 2]\nprint(sorted(list(v)), list(tuple(v)), set(sorted(v)) == {1, 2, 3}, sum(list(v)), tuple(list(v)), list(list(v)), sorted(sorted(v)))\n",
+  # keyword arguments of the outer call
+  "v = ['bb', 'a', 'ccc']\nprint(sorted(list(v), key=len), sorted(tuple(v), reverse=True))\n",
+  # two-stage stable sort
+  "v = [(1, 'b'), (0, 'b'), (1, 'a')]\nprint(sorted(sorted(v, key=lambda t: t[0]), key=lambda t: t[1]))\n",
+  # reversed() needs a sequence
+  "g = (i for i in range(3))\nprint(list(reversed(list(g))), list(reversed(tuple({5: 1, 6: 2}))))\n",
+  # reversed(sorted(...)) reverses ties, sorted(reverse=True) keeps them
+  "v = ['bb', 'a', 'cc']\nprint(list(reversed(sorted(v, key=len))), list(reversed(sorted([3, 1, 2]))), list(reversed(sorted(v, reverse=True))))\n",
+  "print(sum(sorted([3, 1, 2])), sum(reversed([1, 2])), set(reversed([1, 2])) == {1, 2}, sorted(reversed([2, 3, 1])))\n")
+T("performance.replace_sorted_heapq",
+  "v = [3, 1, 2]\nprint(sorted(v, key=abs)[0], sorted(v, key=abs)[-1], sorted(v, key=abs)[:2], sorted(v, key=abs)[-2:])\n",
+  # ties: sorted(...)[-1] is the LAST maximal element, max() returns the first
+  "v = ['bb', 'cc', 'a']\nprint(sorted(v, key=len)[-1], sorted(v, key=len)[0])\n",
+  "v = ['bb', 'cc', 'a', 'dd']\nprint(sorted(v, key=len)[-2:], sorted(v, key=len)[:2])\n",
+  "v = [3, 1, 2]\nn = 0\nprint(sorted(v, key=abs)[-n:], sorted(v, key=abs)[:n])\n")
+T("performance.replace_subscript_looping",
+  "s = [3, 1, 2]\nprint([s[i] for i in range(len(s))], list(s[i] for i in range(len(s))), [s[i] * 2 for i in range(len(s))], {s[i]: s[i] + 1 for i in range(len(s))})\n",
+  # a dict with integer keys is not a sequence
+  "d = {0: 'a', 1: 'b'}\nprint([d[i] for i in range(len(d))], [d[i] + '!' for i in range(len(d))])\n",
+  "s = 'abc'\nprint([s[i] for i in range(len(s))], [(i, s[i]) for i in range(len(s))])\n")
+
+# numpy / pandas are not installed: the programs below define the tiny part of the interface they use themselves
+_NP = ("class np:\n    @staticmethod\n    def dot(a, b):\n        a, b = list(a), list(b)\n        if len(a) != len(b):\n            raise ValueError('shapes not aligned')\n        t = 0\n        for i in range(len(a)):\n            t += a[i] * b[i]\n        return t\n"
+       "    @staticmethod\n    def matmul(a, b):\n        return [[sum(a[i][k] * b[k][j] for k in range(len(b))) for j in range(len(b[0]))] for i in range(len(a))]\n")
+T("performance_numpy.replace_implicit_dot",
+  _NP + "a = [1, 2, 3]\nb = [4, 5, 6]\nprint(sum(x * y for x, y in zip(a, b)), sum([x * y for x, y in zip(a, b)]), np.dot(a, b))\n",
+  _NP + "a = []\nprint(sum(x * y for x, y in zip(a, a)), np.dot(a, a))\n",
+  # zip stops at the shorter operand, dot requires equal lengths
+  _NP + "a = [1, 2, 3]\nb = [4, 5]\nprint(sum(x * y for x, y in zip(a, b)), np.dot(b, b))\n")
+T("performance_numpy.replace_implicit_matmul",
+  _NP + "left = [[1, 2], [3, 4]]\nright = [[5, 6], [7, 8]]\nresult = [[0, 0], [0, 0]]\nfor i in range(len(left)):\n    for j in range(len(right[0])):\n        for k in range(len(right)):\n            result[i][j] += left[i][k] * right[k][j]\nprint(result)\n",
+  # += accumulates onto the previous content of result
+  _NP + "left = [[1, 2], [3, 4]]\nright = [[5, 6], [7, 8]]\nresult = [[100, 0], [0, 100]]\nfor i in range(len(left)):\n    for j in range(len(right[0])):\n        for k in range(len(right)):\n            result[i][j] += left[i][k] * right[k][j]\nprint(result)\n",
+  # the loop updates the object in place: another name for it sees the update
+  _NP + "left = [[1, 2], [3, 4]]\nright = [[5, 6], [7, 8]]\nresult = [[0, 0], [0, 0]]\nalias = result\nfor i in range(len(left)):\n    for j in range(len(right[0])):\n        for k in range(len(right)):\n            result[i][j] += left[i][k] * right[k][j]\nprint(alias)\n",
+  _NP + "left = [[1, 2], [3, 4]]\nright = [[5, 6], [7, 8]]\nresult = [[sum(left[i][k] * right[k][j] for k in range(len(right))) for j in range(len(right[0]))] for i in range(len(left))]\nprint(result)\n")
+_M = ("class M:\n    def __init__(self, rows):\n        self.rows = [list(r) for r in rows]\n    @property\n    def T(self):\n        return M(zip(*self.rows))\n"
+      "    def __repr__(self):\n        return 'M(%r)' % (self.rows,)\n"
+      "class np:\n    @staticmethod\n    def matmul(a, b):\n        a, b = a.rows, b.rows\n        return M([[sum(a[i][k] * b[k][j] for k in range(len(b))) for j in range(len(b[0]))] for i in range(len(a))])\n")
+T("performance_numpy.simplify_matmul_transposes",
+  _M + "a = M([[1, 2], [3, 4]])\nb = M([[5, 6], [7, 9]])\nprint(np.matmul(a.T, b.T).T, np.matmul(b, a))\n",
+  _M + "a = M([[1, 2, 3]])\nb = M([[4], [5]])\nprint(np.matmul(a.T, b.T).T)\n")
+T("fixes.simplify_transposes",
+  _M + "a = M([[1, 2], [3, 4]])\nb = M([[5, 6], [7, 9]])\nprint(a.T.T, np.matmul(a.T, b.T).T)\n")
+_DF = ("class _Ix:\n    def __init__(self, rows):\n        self.rows = rows\n    def __getitem__(self, key):\n        i, j = key if isinstance(key, tuple) else (key, None)\n        row = self.rows[i]\n        return row if j is None else row[j]\n"
+       "class _Row(dict):\n    def __getattr__(self, name):\n        return self if name == 'at' else self[name]\n"
+       "class DF:\n    def __init__(self, rows):\n        self.rows = [_Row(r) for r in rows]\n        self.index = list(range(len(rows)))\n        self.loc = self.at = self.iloc = self.iat = _Ix(self.rows)\n"
+       "    def iterrows(self):\n        return iter(enumerate(self.rows))\n    def itertuples(self):\n        return iter(self.rows)\n"
+       "df = DF([{'a': 1, 'b': 2}, {'a': 3, 'b': 4}])\n")
+T("performance_pandas.replace_loc_at_iloc_iat",
+  _DF + "print(df.loc[0], df.loc[1, 'a'], df.iloc[1], df.iloc[0, 'b'])\n",
+  _DF + "i = 1\nprint(df.loc[i], df.loc[0:1] if False else df.loc[-1])\n")
+T("performance_pandas.replace_iterrows_index",
+  _DF + "for i, _ in df.iterrows():\n    print(i)\nprint([i for i, _ in df.iterrows()])\n")
+T("performance_pandas.replace_iterrows_itertuples",
+  _DF + "for _, row in df.iterrows():\n    print(row['a'], row['b'])\n",
+  _DF + "for _, row in df.iterrows():\n    print(row['a'] + row.at['b'])\n")
+
+# ---------------------------------------------------------------------------------------------------------------
+# classes
+
+T("object_oriented.remove_unused_self_cls",
+  "class A:\n    def m(self, x):\n        return x + 1\n    def k(self):\n        return self.m(1)\nprint(A().m(1), A().k())\n",
+  # implicit calls pass the instance: special methods, explicit A.m(a), properties
+  "class A:\n    def __len__(self):\n        return 3\n    def __repr__(self):\n        return 'A!'\nprint(len(A()), A())\n",
+  "class A:\n    def m(self, x):\n        return x + 1\na = A()\nprint(A.m(a, 1))\n",
+  "class A:\n    @property\n    def p(self):\n        return 7\nprint(A().p)\n",
+  "class A:\n    @classmethod\n    def c(cls, x):\n        return x * 2\n    def s(self):\n        return self.c(2)\nprint(A.c(1), A().s())\n",
+  "class B:\n    def m(self):\n        return 'B'\nclass C(B):\n    def m(self):\n        return 'C' + super().m()\nprint(C().m())\n")
+T("object_oriented.move_staticmethod_static_scope",
+  "class A:\n    @staticmethod\n    def m(x):\n        return x + 1\n    def k(self):\n        return self.m(1) + A.m(2)\nprint(A().k(), A.m(5))\n",
+  "class A:\n    @staticmethod\n    def m(x):\n        return x + 1\n    def k(self):\n        r = self.m(1) + A.m(2)\n        return r\nprint(A().k(), A.m(5))\n",
+  # reached through an instance held in a variable
+  "class A:\n    @staticmethod\n    def m(x):\n        return x + 1\na = A()\nprint(a.m(1))\n",
+  "class A:\n    @staticmethod\n    def m(x):\n        return x + 1\nprint(getattr(A, 'm')(1), 'm' in vars(A))\n",
+  "def _m(x):\n    return 'module'\nclass A:\n    @staticmethod\n    def m(x):\n        return 'static'\nprint(A.m(1), _m(1))\n")
+T("object_oriented.fix_unconventional_class_definitions",
+  "class Foo:\n    pass\nFoo.x = 1\nFoo.y = Foo.x if False else 2\nprint(Foo.x, Foo.y)\n",
+  # the value is evaluated in the class namespace after the move
+  "a = 10\nclass Foo:\n    a = 1\nFoo.b = a\nprint(Foo.b)\n",
+  "class Foo:\n    pass\nFoo.inst = Foo()\nprint(type(Foo.inst).__name__)\n")
+
+# ---------------------------------------------------------------------------------------------------------------
+# abstractions
+
+T("abstractions.overused_constant",
+  "a = 'some/path/to/something/cool'\nb = 'some/path/to/something/cool'\nc = 'some/path/to/something/cool'\nd = 'some/path/to/something/cool'\ne = 'some/path/to/something/cool'\nprint(a, b, c, d, e, a is e)\n",
+  # a display of constants is a NEW mutable object each time it is evaluated
+  "a = [1000000, 2000000, 3000000]\nb = [1000000, 2000000, 3000000]\nc = [1000000, 2000000, 3000000]\nd = [1000000, 2000000, 3000000]\ne = [1000000, 2000000, 3000000]\na.append(1)\nprint(a, b, c, d, e)\n",
+  "def f():\n    return {'spam': 3, 'eggs': 2, 'snake': 1336}\ndef g():\n    return {'spam': 3, 'eggs': 2, 'snake': 1336}\nx = f()\nx['spam'] = 0\nprint(x, f(), g(), {'spam': 3, 'eggs': 2, 'snake': 1336}, {'spam': 3, 'eggs': 2, 'snake': 1336}, {'spam': 3, 'eggs': 2, 'snake': 1336})\n",
+  # the default value is evaluated where the function is defined
+  "import sys\ndef f(a='abcdefghijklmnopqrstuvwxyz'):\n    b = 'abcdefghijklmnopqrstuvwxyz'\n    c = 'abcdefghijklmnopqrstuvwxyz'\n    d = 'abcdefghijklmnopqrstuvwxyz'\n    e = 'abcdefghijklmnopqrstuvwxyz'\n    return a == b == c == d == e\nprint(f())\n")
+T("abstractions.simplify_if_control_flow",
+  "def do(v):\n    print('do', v)\n    return v\nx = 11\ny = 12\nfor z in (0, 1):\n    if z:\n        do(x)\n        do(y - x ** 2)\n        print(do(x) - do(y ** 2))\n    else:\n        do(y)\n        do(x - y ** 2)\n        print(do(y) - do(x ** 2))\n",
+  # the names that differ are rebound by a call made inside the branch
+  "x = 1\ny = 2\ndef bump():\n    global x, y\n    x += 10\n    y += 100\nfor z in (0, 1):\n    if z:\n        print(x)\n        bump()\n        print(x * 2)\n        print(x + 1, x - 1)\n    else:\n        print(y)\n        bump()\n        print(y * 2)\n        print(y + 1, y - 1)\n")
+T("abstractions.create_abstractions",
+  "out = []\nfor x in range(11):\n    out.append(x > 7)\n    if x == 3:\n        continue\n    if x == 5:\n        continue\n    if x == 8:\n        continue\n    out.append(x)\nprint(out)\n",
+  "out = []\nfor x in range(6):\n    if x == 3:\n        a = 12\n    elif x == 5:\n        a = x\n    elif x == 4:\n        a = sum((x, 2, 3))\n    else:\n        a = x + 1\n    out.append(x)\n    out.append((x, a))\n    out.append(a)\nprint(out)\n")
+
+# ---------------------------------------------------------------------------------------------------------------
+# symbolic_math (kernel owned by C17; observed here through the rule functions)
+
+T("symbolic_math.simplify_boolean_expressions",
+  "def f(x, y):\n    return (x and False and y), (x or y) and (x or y), (x or x or x), (x > 2 or x > 3), (x > 2 and x > 3), (x == 8 or x >= 3)\nprint(f(0, 1), f(5, 0), f(3, 3), f(8, []), f(2.5, ''))\n",
+  "def f(x):\n    return (x and not x), (x or not x), (x <= 5 or x >= 3), (x > 7 and x < 3), (x == 2 or x != 2)\nprint(f(0), f(5), f(2), f(''), f(4.5))\n",
+  "n = float('nan')\nprint((n <= 5) or (n >= 3), (n == 2) or (n != 2), n > 2 or n > 3)\n",
+  "def t(v):\n    print('t', v)\n    return v\nprint(t(1) and t(0) and t(1) and not t(1), t(0) or t(0))\n")
+T("symbolic_math.simplify_boolean_expressions_symmath",
+  "def f(a, b, c):\n    return (a and b) or (a and c), not (not a or not b), (a or b) and (a or c)\nprint(f(1, 0, 2), f(0, 5, 5), f(3, 4, 0), f([], 'x', None))\n",
+  "def f(a, b):\n    return (a and b) or (a and not b), not not a, (a or b) and a\nprint(f(1, 0), f(0, 1), f('s', ''), f((), 7))\n")
+T("symbolic_math.simplify_constrained_range",
+  "print([x for x in range(10) if x > 3], [x for x in range(10) if x < 4 and x >= 1], [x for x in range(2, 20) if x % 2 == 0 if x < 9])\n",
+  "print(list(x for x in range(5) if x > 10), {x for x in range(-5, 5) if x <= -3} == {-5, -4, -3}, [x for x in range(10, 0, -1) if x > 6])\n",
+  "n = 7\nprint([x for x in range(n) if x >= 2], [x for x in range(n) if x > n], [x for x in range(3, n) if x != 4])\n")
+T("symbolic_math.simplify_math_iterators",
+  "print(sum(range(10)), sum(range(3, 7)), sum(x for x in range(5)), sum([x * x for x in range(4)]), sum(2 * x + 1 for x in range(3)))\n",
+  "n = 6\nprint(sum(range(n)), sum(range(2, n)), sum(i for i in range(n)), sum(1 for _ in range(n)))\n",
+  "n = 0\nm = -3\nprint(sum(range(n)), sum(range(m)), sum(range(5, 3)), sum(x for x in range(m)))\n",
+  "print(sum(range(0, 10, 3)), sum(x for x in range(10) if x % 2), sum(x * y for x in range(3) for y in range(2)))\n")
+
+# ---------------------------------------------------------------------------------------------------------------
+# tracing
+
+T("tracing.fix_starred_imports",
+  "from os.path import *\nprint(basename('/a/b'), join('a', 'b'))\n",
+  "from math import *\nfrom os.path import *\nprint(floor(2.5), basename('x/y'), pi > 3)\n",
+  # a name of the starred module that is only reached dynamically
+  "from math import *\nprint(floor(2.5), eval('ceil(2.5)'))\n",
+  "from string import *\nprint(digits)\n")
